@@ -11,6 +11,7 @@ Throughout: `Uniq col` = point ids are unique per collection (the API's requirem
 never checks it across shards), an unavailable shard is `up = false` / an answer `none`.
 -/
 import SemaModel.C17.Lemmas
+import SemaModel.C06.Props
 import SemaModel.Generated.FactsC17
 namespace Sema.C17
 
@@ -21,6 +22,12 @@ example : Gen.FactsC17.offsetCond = "len(col.ShardIds) > 1 && sr.Offset%len(col.
 example : Gen.FactsC17.offsetAssign = "sr.Offset = sr.Offset / len(col.ShardIds)" := by decide
 example : Gen.FactsC17.cutRule = "len(results) > originalLimit => results = results[:originalLimit]" := by decide
 example : Gen.FactsC17.scoreCmp = "cmp.Compare(b.HybridScore, a.HybridScore)" := by decide
+/-- the merge the model's `searchPoints` / `leScore` / `leKeys` are written against: only with more than one shard;
+without sort options `slices.SortFunc` with the score closure, otherwise `utils.SortSearchResults(results, sr.Sort)` —
+the function C06 models (`Sema.C06.sortCmp`) and `Generated/Compare.lean` translates (`TieSort.lean`) -/
+example : Gen.FactsC17.mergeSkeleton =
+    ["if len(col.ShardIds) > 1 {", "if len(sr.Sort) == 0 {", "slices.SortFunc(results, func)", "} else {",
+     "utils.SortSearchResults(results, sr.Sort)", "}", "}"] := by decide
 /-- 1.42 and 10.0 as float32 bit patterns (used by the driver's heuristic) -/
 example : (Gen.FactsC17.poissonABits, Gen.FactsC17.poissonBBits) = (0x3fb5c28f, 0x41200000) := by decide
 
@@ -309,17 +316,111 @@ driver's stand-in for pdqsort) and merge sort satisfy the hypothesis of `C17_sea
 theorem C17_sort_score : IsSortBy leScore (sortBy leScore) ∧ IsSortBy leScore (fun l => l.mergeSort leScore) :=
   ⟨sortBy_isSortBy leScore leScore_trans leScore_total, mergeSort_isSortBy leScore leScore_trans leScore_total⟩
 
-theorem C17_sort_keys (opts : List Bool) :
+theorem C17_sort_keys (opts : List Sema.C06.SortOpt) :
     IsSortBy (leKeys opts) (sortBy (leKeys opts)) ∧ IsSortBy (leKeys opts) (fun l => l.mergeSort (leKeys opts)) :=
   ⟨sortBy_isSortBy (leKeys opts) (leKeys_trans opts) (leKeys_total opts),
    mergeSort_isSortBy (leKeys opts) (leKeys_trans opts) (leKeys_total opts)⟩
 
+/-- **with two or more shards the cluster's merge decides the order**: the result is ordered by `le`
+whatever order each shard answered in (no hypothesis on the shards' own rankings, unlike the
+single-shard case of `C17_search`, where the cluster does not sort) -/
+theorem C17_search_multi {α} (le : α → α → Bool) (sort : List α → List α) (hsort : IsSortBy le sort)
+    (heur : Nat → Nat → Nat) (maxLimit : Nat) (answers : List (Option (List α))) (limit offset : Nat) (r : List α)
+    (hn : 2 ≤ answers.length) (h : searchPoints sort heur maxLimit answers limit offset = some r) :
+    r.Pairwise (fun x y => le x y = true) :=
+  search_multi le sort hsort heur maxLimit answers limit offset r hn h
+
+/-- **the comparator of the cluster's merge on sort keys is a total preorder on the results, for every list of
+sort options and every kind of value msgpack decodes** (any integer width and signedness, float32 / float64
+with NaN below everything as `cmp.Compare` has it, −0 = +0, ±Inf, strings, nil, bool, slices, maps):
+antisymmetric as a three-way comparison, reflexive, `≤` transitive — exactly the hypotheses under which a
+sort returns an ordered list (`C17_sort_keys`).  It IS `Sema.C06.sortCmp` on the results' `DecodedData`
+(`leKeys`), so this is `C06_sortcmp_preorder` read at the cluster level. -/
+theorem C17_merge_cmp_preorder (opts : List Sema.C06.SortOpt) :
+    (∀ a b : Hit, Sema.C06.sortCmp opts b.data a.data = - Sema.C06.sortCmp opts a.data b.data) ∧
+    (∀ a : Hit, leKeys opts a a = true) ∧
+    (∀ a b : Hit, leKeys opts a b = true ∨ leKeys opts b a = true) ∧
+    (∀ a b c : Hit, leKeys opts a b = true → leKeys opts b c = true → leKeys opts a c = true) := by
+  refine ⟨fun a b => (Sema.C06.C06_sortcmp_preorder opts).1 a.data b.data, fun a => ?_, fun a b => ?_, leKeys_trans opts⟩
+  · simp [leKeys, (Sema.C06.C06_sortcmp_preorder opts).2.1 a.data]
+  · simpa using leKeys_total opts a b
+
+/-- **the cluster-level merge order on sort keys is the order C06's `sortCmp` defines.**  A search over two or
+more shards with sort options `opts`, merged by ANY function that returns a sorted permutation under the
+comparator (pdqsort; `C17_sort_keys` gives two such functions): the `DecodedData` of the returned results,
+in the order returned, is ordered by `Sema.C06.sortCmp opts` — whatever each shard answered and in whatever
+order, for every per-shard limit heuristic, `maxLimit`, `limit`, `offset`. -/
+theorem C17_merge_keys (opts : List Sema.C06.SortOpt) (sort : List Hit → List Hit) (hsort : IsSortBy (leKeys opts) sort)
+    (heur : Nat → Nat → Nat) (maxLimit : Nat) (answers : List (Option (List Hit))) (limit offset : Nat) (r : List Hit)
+    (hn : 2 ≤ answers.length) (h : searchPoints sort heur maxLimit answers limit offset = some r) :
+    (r.map (·.data)).Pairwise (fun a b => Sema.C06.sortCmp opts a b ≤ 0) := by
+  rw [List.pairwise_map]
+  apply (C17_search_multi (leKeys opts) sort hsort heur maxLimit answers limit offset r hn h).imp
+  intro a b hab
+  simpa [leKeys] using hab
+
+/-- `C17_search` read for the sort-key comparator with a concrete sort (merge sort; `C17_sort_keys` discharges the
+hypothesis on the sort): for every list of sort options, whatever kinds the values have — all shards answered, at most
+`limit` results, no duplicate, every result from some shard's answer, and the decoded data in `sortCmp` order.  (`hown`
+— each shard's own answer is in that order, which is C06 — is used for a single-shard collection only.) -/
+theorem C17_search_keys (opts : List Sema.C06.SortOpt) (heur : Nat → Nat → Nat) (maxLimit : Nat)
+    (answers : List (Option (List Hit))) (limit offset : Nat) (r : List Hit)
+    (hu : ((answers.flatMap fun a => a.getD []).map Hit.id).Nodup)
+    (hown : ∀ a ∈ answers, ((a.getD []).map (·.data)).Pairwise (fun x y => Sema.C06.sortCmp opts x y ≤ 0))
+    (h : searchPoints (fun l => l.mergeSort (leKeys opts)) heur maxLimit answers limit offset = some r) :
+    (∀ a ∈ answers, a.isSome) ∧ r.length ≤ limit ∧ (r.map Hit.id).Nodup ∧ (∀ x ∈ r, ∃ a ∈ answers, x ∈ a.getD []) ∧
+      (r.map (·.data)).Pairwise (fun a b => Sema.C06.sortCmp opts a b ≤ 0) := by
+  have hown' : ∀ a ∈ answers, (a.getD []).Pairwise (fun x y => leKeys opts x y = true) := by
+    intro a ha
+    have := hown a ha
+    rw [List.pairwise_map] at this
+    exact this.imp (fun hxy => by simpa [leKeys] using hxy)
+  obtain ⟨h1, h2, h3, h4, h5⟩ := C17_search Hit.id (leKeys opts) _ (C17_sort_keys opts).2 heur maxLimit answers limit offset r hu hown' h
+  refine ⟨h1, h2, h3, h4, ?_⟩
+  rw [List.pairwise_map]
+  exact h5.imp (fun hxy => by simpa [leKeys] using hxy)
+
+/-- hence everything C06 proves about a `sortCmp`-ordered list holds for the merged result of a multi-shard
+search: under the first sort option no result that lacks the property stands before one that has it, and
+results that both have it are ordered by `CompareAny` on it (reversed for `descending`) … -/
+theorem C17_merge_missing_last (o : Sema.C06.SortOpt) (rest : List Sema.C06.SortOpt) (sort : List Hit → List Hit)
+    (hsort : IsSortBy (leKeys (o :: rest)) sort)
+    (heur : Nat → Nat → Nat) (maxLimit : Nat) (answers : List (Option (List Hit))) (limit offset : Nat) (r : List Hit)
+    (hn : 2 ≤ answers.length) (h : searchPoints sort heur maxLimit answers limit offset = some r) :
+    (r.map (·.data)).Pairwise (fun a b => (Sema.C06.access b o.path ≠ none → Sema.C06.access a o.path ≠ none) ∧
+      ∀ x y, Sema.C06.access a o.path = some x → Sema.C06.access b o.path = some y →
+        (if o.desc then Sema.C06.cmpAny y x else Sema.C06.cmpAny x y) ≤ 0) :=
+  Sema.C06.C06_missing_last o rest _ (C17_merge_keys (o :: rest) sort hsort heur maxLimit answers limit offset r hn h)
+
+/-- … and two results that both carry a NUMBER under the first sort option stand in numeric order, whatever
+the two kinds (any integer width, signed or unsigned, float32 or float64): `numOrd` is the exact value
+scaled by `2^1074`, nothing is rounded and no unsigned integer is read as signed or the other way round —
+`200` stored as uint8 is above `−1.5`, `2^63` stored as uint64 is above every int64, `2^53 + 1` is above the
+float64 `2^53`. -/
+theorem C17_merge_numeric (o : Sema.C06.SortOpt) (rest : List Sema.C06.SortOpt) (sort : List Hit → List Hit)
+    (hsort : IsSortBy (leKeys (o :: rest)) sort)
+    (heur : Nat → Nat → Nat) (maxLimit : Nat) (answers : List (Option (List Hit))) (limit offset : Nat) (r : List Hit)
+    (hn : 2 ≤ answers.length) (h : searchPoints sort heur maxLimit answers limit offset = some r) :
+    (r.map (·.data)).Pairwise (fun a b => ∀ x y nx ny, Sema.C06.access a o.path = some x → Sema.C06.access b o.path = some y →
+      Sema.C06.numOf x = some nx → Sema.C06.numOf y = some ny →
+      if o.desc then Sema.C06.numOrd ny ≤ Sema.C06.numOrd nx else Sema.C06.numOrd nx ≤ Sema.C06.numOrd ny) :=
+  Sema.C06.C06_sort_numeric o rest _ (C17_merge_keys (o :: rest) sort hsort heur maxLimit answers limit offset r hn h)
+
 -- non-vacuity: three shards, limit 3, scores descending
 def exAns : List (Option (List Hit)) :=
   [some [⟨1, 9, []⟩, ⟨2, 4, []⟩], some [⟨3, 7, []⟩], some [⟨4, 8, []⟩, ⟨5, 1, []⟩]]
-example : searchPoints (sortBy leScore) (fun l n => l / n + 10) 75 exAns 3 0 =
-    some [⟨1, 9, []⟩, ⟨4, 8, []⟩, ⟨3, 7, []⟩] := by decide
+example : (searchPoints (sortBy leScore) (fun l n => l / n + 10) 75 exAns 3 0).map (·.map Hit.id) = some [1, 4, 3] := by decide
 example : ((exAns.flatMap fun a => a.getD []).map Hit.id).Nodup ∧ ∀ a ∈ exAns, (a.getD []).Pairwise (fun x y => leScore x y = true) := by decide
+
+-- non-vacuity of the sort-key theorems: two shards, one point each; the sort property was written through
+-- MessagePack and keeps the width it was sent with — 200 as uint8 in one point, −1.5 as float64 in the other,
+-- a third point on the first shard lacks it.  Ascending: −1.5, 200, missing; descending: 200, −1.5, missing.
+def exMixed : List (Option (List Hit)) :=
+  [some [⟨1, 0, [("temp", .uint 8 200)]⟩, ⟨3, 0, []⟩], some [⟨2, 0, [("temp", .f64 0xbff8000000000000#64)]⟩]]
+set_option maxRecDepth 8192 in
+example : (searchPoints (sortBy (leKeys [⟨["temp"], false⟩])) (fun l n => l / n + 10) 75 exMixed 10 0).map (·.map Hit.id) = some [2, 1, 3] ∧
+    (searchPoints (sortBy (leKeys [⟨["temp"], true⟩])) (fun l n => l / n + 10) 75 exMixed 10 0).map (·.map Hit.id) = some [1, 2, 3] := by
+  refine ⟨by decide, by decide⟩
 
 /-! ### internalRoute: success means "delivered and answered" -/
 
